@@ -65,6 +65,9 @@ def catalogue(tier: str):
     add('prevb-f2-ra0', 'prevb', 2, scheduling={'runahead limit': 'P0'})
     add('custom-f1', 'custom', 1)
     add('chain2-f2-holdcp1', 'chain2', 2, options={'holdcp': '1'})
+    # a finished but incomplete task (its job did not emit the required
+    # custom output) whose definition is removed by the reload
+    add('custom-f1-partial', 'custom', 1, emit='any', drop_tasks=['a'])
     # a task removed and respawned by its other parent: it then carries an
     # unsatisfied prerequisite whose upstream output is in the database
     add('and-f1-remove-c', 'and', 1,
@@ -96,7 +99,8 @@ def make_factory(spec, tier='quick'):
             helpers=spec.get('helpers'),
             helper_budget=1 if spec.get('helpers') else 0,
             monitors=[ReloadPreserves, PoolInvariants],
-            outcomes=outcomes_for(spec), jump=())
+            outcomes=outcomes_for(spec), emit=spec.get('emit', 'all'),
+            jump=())
     return factory
 
 
